@@ -90,7 +90,8 @@ def run(ck, prog, ctx):
         cnt[owner] = i + 1
         ck.ob("SIBLING", "membership/%s/%d" % (owner, i), s["inclusive"],
               "%s tests the ontology's %s roots against %s%s" % (owner, s["root"], " ∪ ".join(s["fields"]), "" if s["inclusive"] else
-                                                                 ": the term's own id is missing, so a %s root itself is not recognised (is_modifier() is true for it)" % s["root"]),
+                                                                 (": the DIRECT parents are read where the ancestor closure is meant, so a term deeper than one level below a %s root is not recognised" % s["root"] if "all_parents" not in s["fields"] else
+                                                                  ": the term's own id is missing, so a %s root itself is not recognised (is_modifier() is true for it)" % s["root"])),
               where=b.where(s["term"].line))
     # (the two HpoTerm predicates may share one private helper: fewer sites, same coverage - `site-present` below checks each user)
     from props.shared import reaches_membership_test as _rmt
@@ -213,6 +214,10 @@ def run(ck, prog, ctx):
                 vals = [v for v, _ in x.targets]
                 false_t = [tg for v, tg in x.targets if v == 0]
                 neg = any(a[0] == "op" and a[1] == "Not" for a in at)
+                from engines import bool_const_cmp as _bcc14
+                for _k14, _p14, _d14 in pvn.defs(fb).get(x.discr.place.local if x.discr.place is not None else -1, []):
+                    if _k14 == "assign" and _bcc14(_d14.rv) is not None and _bcc14(_d14.rv)[1] == -1:
+                        neg = not neg  # `(..).is_empty() == false`
                 if false_t and not neg and fb.edge_dominates((gbi, false_t[0]), bi):
                     guards.append((ks, filtered, x))
             helper_guard = None
@@ -282,6 +287,13 @@ def run(ck, prog, ctx):
         ck.ob("KIND", "K3/sub_ontology/" + m, K in seen_kinds, "sub_ontology %s %s records" % ("re-annotates" if K in seen_kinds else "never re-annotates", K), where=sub.where())
 
     check_complete_iteration(ck, "KIND", prog, [SUB], "the leaves, retained terms and annotation records")
+    # ... and none of its loops is left in the middle: a `break` where a record is merely to be skipped (`continue`) drops every later record
+    from engines import for_loops as _fl14, loop_early_exits as _lee14
+    for fb_ in prog.family(sub):
+        for li_, lp_ in enumerate(_fl14(fb_)):
+            ex_ = _lee14(fb_, lp_)
+            ck.ob("KIND", "loop-runs-to-the-end/%s/%d" % (fb_.short, li_), not ex_, "%s: the loop in line %s %s" % (fb_.short, lp_["line"], "ends only when its iterator is exhausted (or with an error)" if not ex_ else
+                  "can be left early (line %s) and still return normally: the terms / records behind that point are not copied" % fb_.blocks[ex_[0][0]].term.line), where=fb_.where(lp_["line"]))
 
     # "refused with an error when some leaf is not root OR A DESCENDANT of root": a leaf's validity is an inclusive relation.  `parent_of` /
     # `child_of` are strict (a term is not its own ancestor); deciding the error with one of them alone refuses the root itself as a leaf.
